@@ -7,7 +7,7 @@ import (
 )
 
 var numPool = []float64{0, 1, 2, 3, -1, 1.5, 10, 100, -0.5, 1e21, 1e-7, 123456789, 2}
-var strPool = []string{"a", "b", "", "1", "a b", "é", "it's", "ab", "A", "a/b", "x\\y", "true", "null", "say \"hi\""}
+var strPool = []string{"a", "b", "", "1", "a b", "é", "it's", "ab", "A", "a/b", "x\\y", "true", "null", "say \"hi\"", "xab", "abx", "ba", "aa"}
 
 // Leaf draws a scalar or empty container.
 func (g *G) Leaf() *DNode {
